@@ -276,6 +276,22 @@ def head_tie_spec():
     return s
 
 
+def priority_conflict_spec(high_first=True, equal=False):
+    """two simple controls that hold at every step and command opposite statuses on the same pipe, with different
+    priorities (either registration order) or equal priority (the later registered one wins)"""
+    s = _base(3600, 3)
+    s["reservoirs"].append({"name": "R", "head": 40.0})
+    s["junctions"].append({"name": "J", "elev": 0.0, "demand": 0.01, "pattern": None})
+    s["tanks"].append({"name": "T", "elev": 20.0, "init": 2.0, "min": 0.0, "max": 8.0, "diam": 10.0, "curve": None})
+    s["pipes"].append({"name": "PA", "start": "R", "end": "J", "length": 100.0, "diam": 0.3, "rough": 100.0, "cv": False, "status": "OPEN"})
+    s["pipes"].append({"name": "PT", "start": "J", "end": "T", "length": 100.0, "diam": 0.2, "rough": 100.0, "cv": False, "status": "OPEN"})
+    s["pipes"].append({"name": "PX", "start": "R", "end": "J", "length": 500.0, "diam": 0.1, "rough": 100.0, "cv": False, "status": "OPEN"})
+    hi = {"name": "hi", "src": "T", "attr": "level", "rel": "ge", "thr": 0.5, "link": "PX", "value": "CLOSED", "prio": 3 if equal else 5}
+    lo = {"name": "lo", "src": "J", "attr": "pressure", "rel": "ge", "thr": -50.0, "link": "PX", "value": "OPEN", "prio": 3 if equal else 1}
+    s["controls"] = [hi, lo] if high_first else [lo, hi]
+    return s
+
+
 def build_wn(wntr, spec, report="ALL"):
     from wntr.network.controls import Control, ControlAction, ValueCondition, ControlPriority
     from wntr.network import LinkStatus
